@@ -842,7 +842,7 @@ PPL::Grid::is_discrete() const {
     return true;
   }
   // Search for lines in the generator system.
-  for (dimension_type row = gen_sys.num_rows(); row-- > 1; ) {
+  for (dimension_type row = gen_sys.num_rows(); row-- > 0; ) {
     if (gen_sys[row].is_line()) {
       return false;
     }
